@@ -880,6 +880,61 @@ def extract_upgrade_method_identity_tests(repo):
     return sorted(set(bad))
 
 
+def extract_clone_omits(repo):
+    """signature.py: for every signature class with a clone() that constructs the class by keywords - the constructor
+    parameters that clone() neither passes nor assigns afterwards (`cloned._x = self._x`): a clone that forgets one is
+    not a copy.  Returns "Class.param" strings."""
+    tree = ast.parse(_src(repo, 'django_evolution/signature.py'))
+    out = []
+    for cls in [n for n in tree.body if isinstance(n, ast.ClassDef)]:
+        fns = {f.name: f for f in cls.body if isinstance(f, ast.FunctionDef)}
+        if 'clone' not in fns or '__init__' not in fns:
+            continue
+        params = [a.arg for a in fns['__init__'].args.args if a.arg != 'self']
+        calls = [n for n in ast.walk(fns['clone']) if isinstance(n, ast.Call) and
+                 ast.unparse(n.func) in (cls.name, 'cls', 'type(self)', 'self.__class__')]
+        if len(calls) != 1:
+            raise ExtractError('%s.clone: expected one construction of the class' % cls.name)
+        if calls[0].args:
+            raise ExtractError('%s.clone: positional arguments in the construction' % cls.name)
+        passed = set(k.arg for k in calls[0].keywords)
+        for n in ast.walk(fns['clone']):
+            if isinstance(n, ast.Assign) and len(n.targets) == 1 and isinstance(n.targets[0], ast.Attribute):
+                passed.add(n.targets[0].attr.lstrip('_'))
+        # sub-signatures are added one by one after the construction (add_app_sig, add_model_sig, ...)
+        out += ['%s.%s' % (cls.name, p_) for p_ in params if p_ not in passed]
+    return sorted(out)
+
+
+def extract_meta_slots(repo):
+    """AppMutator._process_mutation_batch: every `if`/`elif` on `mutation.prop_name == '<prop>'` with the tables it
+    tests, writes and reads for that property - "the last ChangeMeta of a property wins" keeps ONE table per property.
+    Returns strings "<prop>: <sorted table names>", one per test, in source order."""
+    tree = ast.parse(_src(repo, 'django_evolution/mutators/app_mutator.py'))
+    cls = _find_class(tree, 'AppMutator')
+    fn = _find_func(cls, '_process_mutation_batch')
+    out = []
+    for n in ast.walk(fn):
+        if not isinstance(n, ast.If):
+            continue
+        test = ast.unparse(n.test)
+        props = re.findall(r"mutation\.prop_name == '(\w+)'", test)
+        if len(props) != 1:
+            if 'mutation.prop_name' in test:
+                out.append('?: ' + test)      # a test on the property of another shape: shown as it is
+            continue
+        tables = set()
+        for m in [n.test] + n.body:
+            for x in ast.walk(m):
+                if isinstance(x, ast.Subscript) and ast.unparse(x.slice) == 'mutation.model_name':
+                    tables.add(ast.unparse(x.value))
+                if isinstance(x, ast.Compare) and ast.unparse(x.left) == 'mutation.model_name' and \
+                        isinstance(x.ops[0], (ast.In, ast.NotIn)):
+                    tables.add(ast.unparse(x.comparators[0]))
+        out.append('%s: %s' % (props[0], ','.join(sorted(tables))))
+    return out
+
+
 def extract_found_reset_per_label(repo):
     """get_app_mutations: the flag that says "an SQL file was found for this label" is set to False INSIDE the loop
     over the labels (once per label), so that a label without an SQL file falls back to its Python module whatever
@@ -1163,6 +1218,14 @@ def regenerate(repo, outdir):
     flags['found_reset_per_label'] = frl
     parts.append('/-- get_app_mutations forgets, for every label, whether an earlier label was shipped as an SQL file -/')
     parts.append('def foundResetPerLabel : Bool := ' + ('true' if frl else 'false'))
+    msl = extract_meta_slots(repo)
+    flags['meta_slots'] = msl
+    parts.append('/-- the optimiser: per test on a ChangeMeta property, the tables it tests, writes and reads -/')
+    parts.append('def metaSlots : List String := ' + lean_list(lean_str(x) for x in msl))
+    clo = extract_clone_omits(repo)
+    flags['clone_omits'] = clo
+    parts.append('/-- constructor parameters of the signature classes that their clone() neither passes nor assigns -/')
+    parts.append('def cloneOmits : List String := ' + lean_list(lean_str(x) for x in clo))
     umi = extract_upgrade_method_identity_tests(repo)
     flags['upgrade_method_identity_tests'] = umi
     parts.append('/-- comparisons of an upgrade method with a constant that go by object identity (there should be none) -/')
